@@ -27,7 +27,9 @@ def notice_time(obs: dict, i: int) -> float:
 
 
 def has_faults(case: dict) -> bool:
-    return bool(case.get("faults"))
+    """Disconnects, write failures, pauses, or sends that the application abandoned: the clauses about exact budgets, back-off and
+    queue order are judged on episodes without them (the statement's 'if its timeout allows' / undisturbed queue)."""
+    return bool(case.get("faults")) or any(c.get("abandon") is not None for c in case["callers"])
 
 
 # ---------------------------------------------------------------------------------------------------------
@@ -43,6 +45,8 @@ def oracle_c07(case: dict, obs: dict) -> list[tuple[dict, str]]:
         own = T.cmd_frame(c)
         nt = notice_time(obs, i)
         deadline = rec.get("t_call", spec["t"]) + min(spec["timeout"], 20.0) + nt + EPS
+        if rec["outcome"] == "abandoned":
+            continue  # the application cancelled this send itself: nothing is owed to it (the others are judged as ever)
         if rec["outcome"] == "pending":
             out.append(({"clause": "hang", "how": "never-completes"}, f"caller {i} ({own}) still pending at the horizon"))
             continue
